@@ -405,6 +405,17 @@ func (g *gen) arrayName() (*Place, bool) {
 	return vh.Pick(g.r, c), true
 }
 
+// the value of an array name as a right-hand side: read directly, or — for a property —
+// through a call that returns it (a composite route when it feeds a by-value boundary)
+func (g *gen) readOf(src *Place) *RV {
+	if src.K == "p" && g.r.Chance(45) {
+		return RCall(src)
+	}
+	return RRd(src)
+}
+
+var callForms = []string{"", "", "method", "static", "ctor", "closure", "named"}
+
 // in nested mode a write may go one or two levels into the array a name holds
 func (g *gen) maybeInner(nm *Place) *Place {
 	if !g.nested || !g.r.Chance(45) {
@@ -452,6 +463,7 @@ func (g *gen) program(n int) []Op {
 				o.Route = "getter"
 			} else if g.r.Chance(30) {
 				o.Route = "ident"
+				o.R = g.readOf(src) // ident($o->getP()): call result into a parameter, returned, assigned
 			}
 			ops = append(ops, o)
 			setKind(x, "arr", 0)
@@ -469,7 +481,7 @@ func (g *gen) program(n int) []Op {
 			p := g.r.Intn(2)
 			o := Op{K: "setProp", X: x, P: p}
 			if src, ok2 := g.arrayName(); ok2 && g.r.Chance(60) {
-				o.R = RRd(src)
+				o.R = g.readOf(src)
 			} else {
 				l, _ := g.litShape()
 				o.R = RLit(l)
@@ -514,7 +526,7 @@ func (g *gen) program(n int) []Op {
 			switch g.r.Intn(5) {
 			case 0:
 				if src, ok2 := g.arrayName(); ok2 {
-					r = RRd(src)
+					r = g.readOf(src)
 				} else {
 					r = RInt(g.r.Intn(10))
 				}
@@ -525,7 +537,7 @@ func (g *gen) program(n int) []Op {
 				r = RInt(g.r.Intn(10))
 			}
 			nm = g.maybeInner(nm)
-			if nm.Depth() > 0 && r.K == "rd" {
+			if nm.Depth() > 0 && (r.K == "rd" || r.K == "call") {
 				// a copy of an array stored into one of its own inner arrays is a cyclic value on
 				// this tree (known finding cycle:nested-self-store); printing it kills the process
 				r = RInt(g.r.Intn(10))
@@ -553,15 +565,17 @@ func (g *gen) program(n int) []Op {
 				o.Route = "func"
 			}
 			ops = append(ops, o)
-		case 14: // by-value call that mutates its parameter
-			y, ok := g.pickKind("arr")
+		case 14: // by-value call that mutates its parameter; the argument is any array name, read
+			// directly or through a getter (composite route), the call any of the call forms
+			src, ok := g.arrayName()
 			if !ok {
 				continue
 			}
 			x := g.nv - 1
-			if alias.cell[x] != x || y == x {
+			if alias.cell[x] != x || (src.K == "v" && src.X == x) {
 				continue
 			}
+			y := src.X
 			shared := false
 			for z := range alias.cell {
 				if z != x && alias.cell[z] == x {
@@ -584,7 +598,7 @@ func (g *gen) program(n int) []Op {
 					inner = append(inner, Op{K: "unset", B: V(x), Key: kp(g.key())})
 				}
 			}
-			ops = append(ops, Op{K: "call", X: x, Y: y, Inner: inner})
+			ops = append(ops, Op{K: "call", X: x, Y: y, Inner: inner, Arg: g.readOf(src), Form: vh.Pick(g.r, callForms)})
 			setKind(x, "arr", 0)
 		case 15: // read an element into a variable (may yield a scalar: the variable is then unusable as array name)
 			nm, ok := g.arrayName()
